@@ -261,7 +261,7 @@ func TakeSnap(s *Srv, who string, running bool) *Snap {
 	}
 	// non-zero data blocks
 	nz := []int{}
-	for bn := uint64(sup.DataStart()); bn < sz; bn++ {
+	for bn := uint64(sup.DataStart()); bn < sz && !SnapSkipNonZero; bn++ {
 		if !isZero(rd(bn)) {
 			nz = append(nz, int(bn))
 		}
